@@ -330,6 +330,24 @@ def extract_item(gen, repo, sec, sources):
                 k += 1
         if spec_text.strip() or ats:
             raise ValueError("spec/at on non-fn item %s" % spec)
+    # compound `%=` / `/=` on a plain variable are desugared (`x %= e;` -> `x = x % (e);`): the Verus front end rejects
+    # the compound form on signed integers ("div/mod on signed finite-width integers") although it accepts `%`; the
+    # two forms are the same expression for primitive integers.
+    if item.kind == "fn" and item.body:
+        ct = S.ct
+        lo, hi = item.ct_range
+        for i in range(lo + 1, hi - 2):
+            if ct[i].kind == PUNCT and ct[i].text in ("%", "/") and ct[i + 1].text == "=" and ct[i + 1].start == ct[i].end \
+                    and ct[i - 1].kind == IDENT and ct[i - 2].text in (";", "{", "}") and ct[i + 2].text != "=":
+                j = i + 2
+                while j < hi and ct[j].text != ";":
+                    if ct[j].text in ("(", "[", "{"): j = match_close(ct, j)
+                    j += 1
+                if j >= hi: continue
+                var = ct[i - 1].text
+                edits.append((ct[i].start, ct[i + 1].end, "= %s %s (" % (var, ct[i].text)))
+                edits.append((ct[j].start, ct[j].start, ")"))
+                gen.rewrites.append("%s: `%s %s= e` desugared to `%s = %s %s (e)` at %s:%d" % (spec, var, ct[i].text, var, var, ct[i].text, rel, S.line_of(ct[i].start)))
     # renames: textual, on code tokens only (never inside strings/comments)
     for old, new in renames:
         pat = re.compile(re.escape(old))
